@@ -11,6 +11,7 @@
 #include <time.h>
 #include <sched.h>
 #include <sys/stat.h>
+#include <sys/prctl.h>
 #include "hx.h"
 #include "bidib.h"
 
@@ -244,6 +245,8 @@ NOINST static int exec_main_step(int argc, char **argv, FILE *f) {
 	if (r >= 0) return r;
 	if (!strcmp(op, "seed") && argc >= 2) { mon_init(strtoull(argv[1], NULL, 0)); return 0; }
 	if (!strcmp(op, "perturb") && argc >= 2) { mon_perturb = atoi(argv[1]); return 0; }
+	if (!strcmp(op, "vtlimit") && argc >= 2) { extern int vt_call_limit_s; vt_call_limit_s = atoi(argv[1]); return 0; }
+	if (!strcmp(op, "evmax") && argc >= 2) { extern size_t ev_max_bytes; ev_max_bytes = (size_t)atoi(argv[1]) << 20; return 0; }
 	if (!strcmp(op, "watchdog") && argc >= 2) { watchdog_ms = atoi(argv[1]); return 0; }
 	if (!strcmp(op, "contracts") && argc >= 2) { mon_contracts_on = atoi(argv[1]); return 0; }
 	if (!strcmp(op, "arm") && argc >= 2) { mon_armed = atoi(argv[1]); return 0; }
@@ -347,6 +350,7 @@ NOINST static int exec_main_step(int argc, char **argv, FILE *f) {
 
 int main(int argc, char **argv) {
 	if (argc < 3) { fprintf(stderr, "usage: player <scenario> <events>\n"); return 2; }
+	prctl(PR_SET_PDEATHSIG, SIGKILL);      /* never outlive the check that started us */
 	ev_open(argv[2]);
 	mon_init(1);
 	FILE *f = fopen(argv[1], "r");
